@@ -74,6 +74,9 @@ def graph(name):
         A = _tree(31)
     elif name == "ring45":
         A = _ring(45, [(7, 4), (11, 9)])
+    elif name.startswith("big"):
+        # one large component: part boundaries from size-dependent arithmetic
+        A = _ring(int(name[3:]), [(5, 3), (9, 7)])
     elif name == "three":
         A = _union(_ring(21, [(2, 5)]), _ring(12), _tree(15),
                    np.zeros((1, 1), int))
@@ -403,6 +406,15 @@ def run(ctx):
                 extra = (6, 9, 13) if thorough else (7,)
                 for S in extra:
                     cases.append([g, m, S, silence, 0])
+    # scale: large single components (part sizes from size-dependent
+    # arithmetic), default schedule, several worker counts
+    for g in (["big52", "big64"] if not thorough else
+              ["big52", "big55", "big58", "big64", "big89", "big96",
+               "big131"]):
+        graphs.append(g)
+        for m in ("newman", "nsi_newman+ends", "arenas"):
+            for S in ((2, 3, 5, 9) if thorough else (2, 4)):
+                cases.append([g, m, S, 2, 0])
     ctx.explore("dist", cases, chunk=1, desc="master loop over the "
                 "in-process MPI world, schedules explored")
     cc = []
